@@ -6,11 +6,16 @@ import (
 	"sort"
 	"strings"
 
+	"encoding/json"
+	"os"
+
 	"github.com/hashicorp/go-hclog"
 	"github.com/hashicorp/raft"
 	wal "github.com/hashicorp/raft-wal"
+	"github.com/hashicorp/raft-wal/metadb"
 	"github.com/hashicorp/raft-wal/metrics"
 	"github.com/hashicorp/raft-wal/segment"
+	"github.com/hashicorp/raft-wal/types"
 
 	"verif/simdisk"
 )
@@ -79,14 +84,90 @@ type Config struct {
 	SegSize int `json:"seg_size"`
 }
 
-// Sys is one WAL instance on a simulated disk.
+// Sys is one WAL instance, on a simulated disk (Disk != nil) or on the real
+// filesystem with the real bbolt metadata store (Real).
 type Sys struct {
 	Disk *simdisk.Disk
 	Dir  string
+	Real bool
 	Cfg  Config
 	W    *wal.WAL
 	Meta *SimMeta
+	Rec  *RecMeta
 	MC   metrics.Collector
+	Cnt  *Expect // if set, API calls made by the harness are tallied here (metrics oracle)
+}
+
+// RecMeta wraps the production BoltMetaDB and remembers the last state that
+// was loaded or committed, so that the harness can compare the directory with
+// the metadata without opening the (locked) bolt file a second time.
+type RecMeta struct {
+	Inner *metadb.BoltMetaDB
+	Last  types.PersistentState
+	Has   bool
+}
+
+func (r *RecMeta) Load(dir string) (types.PersistentState, error) {
+	st, err := r.Inner.Load(dir)
+	if err == nil {
+		r.Last, r.Has = st, true
+	}
+	return st, err
+}
+func (r *RecMeta) CommitState(st types.PersistentState) error {
+	err := r.Inner.CommitState(st)
+	if err == nil {
+		r.Last, r.Has = st, true
+	}
+	return err
+}
+func (r *RecMeta) GetStable(k []byte) ([]byte, error) { return r.Inner.GetStable(k) }
+func (r *RecMeta) SetStable(k, v []byte) error        { return r.Inner.SetStable(k, v) }
+func (r *RecMeta) Close() error                       { return r.Inner.Close() }
+
+// ScratchRoot is where real-filesystem scratch directories are made.
+func ScratchRoot() string {
+	if fi, err := os.Stat("/dev/shm"); err == nil && fi.IsDir() {
+		return "/dev/shm"
+	}
+	return os.TempDir()
+}
+
+// MountReal makes an empty scratch directory on the real filesystem.
+func MountReal(cfg Config) (*Sys, error) {
+	dir, err := os.MkdirTemp(ScratchRoot(), "verif-real-")
+	if err != nil {
+		return nil, err
+	}
+	return &Sys{Dir: dir, Real: true, Cfg: cfg}, nil
+}
+
+// MetaRaw returns the JSON of the metadata record as last committed.
+func (s *Sys) MetaRaw() []byte {
+	if s.Real {
+		if s.Rec == nil || !s.Rec.Has {
+			return nil
+		}
+		b, _ := json.Marshal(s.Rec.Last)
+		return b
+	}
+	b, _ := s.Disk.MetaLoad()
+	return b
+}
+
+// List returns the directory listing, sorted.
+func (s *Sys) List() []string {
+	if s.Real {
+		es, _ := os.ReadDir(s.Dir)
+		var out []string
+		for _, e := range es {
+			out = append(out, e.Name())
+		}
+		sort.Strings(out)
+		return out
+	}
+	ls, _ := s.Disk.ListDir()
+	return ls
 }
 
 var nullLogger = hclog.NewNullLogger()
@@ -101,19 +182,30 @@ func Mount(st *simdisk.State, cfg Config) *Sys {
 	return &Sys{Disk: d, Dir: dir, Cfg: cfg}
 }
 
-func (s *Sys) Unmount() { simdisk.Unregister(s.Disk) }
+func (s *Sys) Unmount() {
+	if s.Real {
+		os.RemoveAll(s.Dir)
+		return
+	}
+	simdisk.Unregister(s.Disk)
+}
 
 // Open opens the WAL (real wal + segment + fs packages, simulated OS, simMeta).
 func (s *Sys) Open() error {
-	s.Meta = NewSimMeta(s.Disk)
-	opts := []interface{}{}
-	_ = opts
+	var ms types.MetaStore
+	if s.Real {
+		s.Rec = &RecMeta{Inner: &metadb.BoltMetaDB{}}
+		ms = s.Rec
+	} else {
+		s.Meta = NewSimMeta(s.Disk)
+		ms = s.Meta
+	}
 	var w *wal.WAL
 	var err error
 	if s.MC != nil {
-		w, err = wal.Open(s.Dir, wal.WithMetaStore(s.Meta), wal.WithSegmentSize(s.Cfg.SegSize), wal.WithLogger(nullLogger), wal.WithMetricsCollector(s.MC))
+		w, err = wal.Open(s.Dir, wal.WithMetaStore(ms), wal.WithSegmentSize(s.Cfg.SegSize), wal.WithLogger(nullLogger), wal.WithMetricsCollector(s.MC))
 	} else {
-		w, err = wal.Open(s.Dir, wal.WithMetaStore(s.Meta), wal.WithSegmentSize(s.Cfg.SegSize), wal.WithLogger(nullLogger))
+		w, err = wal.Open(s.Dir, wal.WithMetaStore(ms), wal.WithSegmentSize(s.Cfg.SegSize), wal.WithLogger(nullLogger))
 	}
 	if err != nil {
 		s.W = nil
@@ -181,6 +273,7 @@ type Obs struct {
 	Lo      uint64            `json:"lo"`
 	Entries []string          `json:"entries"` // entries[i] describes index Lo+i: fingerprint, "NF", or "ERR:..."
 	Stable  map[string]string `json:"stable,omitempty"`
+	U64     map[string]string `json:"u64,omitempty"`
 	Listing []string          `json:"listing,omitempty"`
 	logs    map[uint64]*raft.Log
 }
@@ -222,6 +315,12 @@ func (s *Sys) Observe(hintFirst, hintLast uint64) *Obs {
 	for i := lo; i <= hi; i++ {
 		var lg raft.Log
 		err := s.W.GetLog(i, &lg)
+		if s.Cnt != nil {
+			s.Cnt.EntriesRead++
+			if err == nil {
+				s.Cnt.BytesRead += uint64(EncodedSize(&lg))
+			}
+		}
 		switch {
 		case err == nil:
 			o.Entries = append(o.Entries, Fingerprint(&lg))
@@ -236,14 +335,32 @@ func (s *Sys) Observe(hintFirst, hintLast uint64) *Obs {
 	o.Stable = map[string]string{}
 	for _, k := range StableKeys {
 		v, err := s.W.Get([]byte(k))
+		if s.Cnt != nil {
+			s.Cnt.StableGets++
+		}
 		if err != nil {
 			o.Stable[k] = "ERR:" + err.Error()
 		} else if len(v) > 0 {
 			o.Stable[k] = fmt.Sprintf("%x", v)
 		}
 	}
-	ls, _ := s.Disk.ListDir()
-	o.Listing = ls
+	o.U64 = map[string]string{}
+	for _, k := range StableKeys {
+		v, err := s.W.GetUint64([]byte(k))
+		if s.Cnt != nil {
+			s.Cnt.StableGets++
+		}
+		if err != nil {
+			o.U64[k] = "ERR"
+		} else {
+			o.U64[k] = fmt.Sprint(v)
+		}
+	}
+	for _, n := range s.List() {
+		if n != metadb.FileName {
+			o.Listing = append(o.Listing, n)
+		}
+	}
 	return o
 }
 
@@ -341,12 +458,29 @@ func CompareStable(o *Obs, ms []*Model) []Violation {
 			if o.Stable[k] != want {
 				ok = false
 			}
+			if o.U64 != nil {
+				v := m.Stable[k]
+				wu := "ERR"
+				switch len(v) {
+				case 0:
+					wu = "0"
+				case 8:
+					var x uint64
+					for i := 7; i >= 0; i-- {
+						x = x<<8 | uint64(v[i])
+					}
+					wu = fmt.Sprint(x)
+				}
+				if o.U64[k] != wu {
+					ok = false
+				}
+			}
 		}
 		if ok {
 			return nil
 		}
 	}
-	return []Violation{{Prop: "C08", Msg: fmt.Sprintf("stable store %v matches no legal model (%s)", o.Stable, stableSigs(ms))}}
+	return []Violation{{Prop: "C08", Msg: fmt.Sprintf("stable store Get=%v GetUint64=%v matches no legal model (%s)", o.Stable, o.U64, stableSigs(ms))}}
 }
 
 func stableSigs(ms []*Model) string {
